@@ -111,7 +111,7 @@ PROPS = {
         level='proof'),
     'C12': dict(
         id='C12', cluster='Backend', crate='h-backend', tag=12,
-        n={'quick': 60, 'thorough': 900},
+        n={'quick': 45, 'thorough': 900},
         shard=2, workers=16,
         theorems=['view_exact_or_nohistory_partial', 'view_exact_or_nohistory_refuted', 'view_mixed_lengths_original_wrong',
                   'rollback_restores_prev', 'rollback_undoes_commit_step', 'c12_checker_sound', 'model_trace_accepted_partial'],
